@@ -35,22 +35,25 @@ theorem abi_roundtrip (denom sender receiver memo : Bytes) (n : Nat) (hn : n < 2
     ∃ bz, encodeFtpd ⟨denom, dec n, sender, receiver, memo⟩ = .ok bz ∧
       decodeFtpd bz = .ok ⟨denom, dec n, sender, receiver, memo⟩ := by
   refine ⟨_, ?_, decodeFtpd_pack denom sender receiver memo n hn hlen⟩
-  simp [encodeFtpd, parseBig10_dec]
+  simp [encodeFtpd, newIntFromString_dec n hn]
 
-/-- ABI round trip for any amount spelling the *encoder* accepts (`big.Int.SetString(_, 10)`:
-    optional sign, leading zeros): the decoded amount is the canonical decimal of the integer the
-    encoder read; all other fields are returned unchanged. -/
-theorem abi_roundtrip_decimal_reading (d : Ftpd) (neg : Bool) (n : Nat)
-    (hp : parseBig10 d.amount = some (neg, n)) (hneg : neg = true → n = 0) (hn : n < 2 ^ 256)
+/-- ABI round trip for any amount spelling the encoder accepts (`sdkmath.NewIntFromString`: base
+    prefixes, leading zeros, `+`, digit separators): the decoded amount is the canonical decimal of
+    the integer read; all other fields are returned unchanged. -/
+theorem abi_roundtrip_any_spelling (d : Ftpd) (n : Nat) (hp : newIntFromString d.amount = some (false, n))
     (hlen : GoLen (packWrapped [.dyn d.denom, .dyn d.sender, .dyn d.receiver, .num n, .dyn d.memo])) :
     ∃ bz, encodeFtpd d = .ok bz ∧ decodeFtpd bz = .ok ⟨d.denom, dec n, d.sender, d.receiver, d.memo⟩ := by
+  have hn : n < 2 ^ 256 := by
+    unfold newIntFromString at hp
+    split at hp
+    · split at hp
+      · rename_i neg m _ hlt; cases hp; exact hlt
+      · cases hp
+    · cases hp
   refine ⟨_, ?_, decodeFtpd_pack d.denom d.sender d.receiver d.memo n hn hlen⟩
   unfold encodeFtpd
   rw [hp]
-  simp only
-  rw [if_neg]
-  rintro ⟨h1, h2⟩
-  exact h2 (hneg h1)
+  simp
 
 /-- the ICS-20 ABI decoder is total: on every byte string it returns a value or an error; no slice
     expression of `toGoType` / `lengthPrefixPointsTo` / `tuplePointsTo` goes out of bounds -/
@@ -62,55 +65,28 @@ def SameTransfer (x y : Ftpd) : Prop :=
   x.denom = y.denom ∧ x.sender = y.sender ∧ x.receiver = y.receiver ∧ x.memo = y.memo ∧
     newIntFromString x.amount = newIntFromString y.amount
 
-/-- the full statement of the property for the ABI encoding: every value with a valid amount
-    (`ValidateBasic`'s amount check) encodes, and decoding gives the same transfer -/
-def abi_same_transfer_full : Prop :=
-  ∀ x : Ftpd, (validAmount x.amount).isSome →
-    (∀ n, GoLen (packWrapped [.dyn x.denom, .dyn x.sender, .dyn x.receiver, .num n, .dyn x.memo])) →
-    ∃ bz y, encodeFtpd x = .ok bz ∧ decodeFtpd bz = .ok y ∧ SameTransfer x y
-
-/-- It is false of the code: `ValidateBasic` reads the amount in base 0 (`"010"` is octal 8, `"0x10"`
-    is 16) while `EncodeABIFungibleTokenPacketData` reads it in base 10 (`"010"` is 10, `"0x10"` fails).
-    Witness `"010"` (replayed on the real code by the harness monitor, finding key
-    `abi-amount-base/differs`). -/
-theorem abi_same_transfer_full_false : ¬ abi_same_transfer_full := by
-  intro h
-  let x : Ftpd := ⟨[117, 97, 116, 111, 109], ['0', '1', '0'], [97], [98], []⟩
-  have hlenAll : ∀ n, GoLen (packWrapped [.dyn x.denom, .dyn x.sender, .dyn x.receiver, .num n, .dyn x.memo]) := by
-    intro n
-    unfold GoLen
-    rw [packWrapped_length]
-    simp [encTails, FVal.tail, encDyn_length, ceil32, x]
-  obtain ⟨bz, y, he, hd, hs⟩ := h x (by decide) hlenAll
-  have hp : parseBig10 x.amount = some (false, 10) := by decide
-  obtain ⟨bz', he', hd'⟩ := abi_roundtrip_decimal_reading x false 10 hp (by intro h; cases h) (by decide) (hlenAll 10)
-  rw [he] at he'
-  cases he'
-  rw [hd] at hd'
-  cases hd'
-  have h1 : newIntFromString x.amount = some (false, 8) := by decide
-  have h2 : newIntFromString (dec 10) = some (false, 10) := newIntFromString_dec 10 (by decide)
-  have := hs.2.2.2.2
-  rw [h1] at this
-  simp only at this
-  rw [h2] at this
-  cases this
-
-/-- … and it holds whenever the two readers agree on the amount string (in particular for every
-    canonical decimal, i.e. for everything ibc-go's own senders produce) -/
-theorem abi_same_transfer_partial (x : Ftpd) (n : Nat)
-    (hv : newIntFromString x.amount = some (false, n)) (hp : parseBig10 x.amount = some (false, n))
-    (hlen : GoLen (packWrapped [.dyn x.denom, .dyn x.sender, .dyn x.receiver, .num n, .dyn x.memo])) :
+/-- The full statement of the property for the ABI encoding: every value with a valid amount
+    (`ValidateBasic`'s amount check, whatever its spelling) encodes, and decoding gives the same
+    transfer.  (Before fix 6129489 this was false of the code — the encoder read the amount in base
+    10, `ValidateBasic` in base 0: "010" was validated as 8 and encoded as 10; the witnesses "010"
+    and "0x10" are kept as regression inputs of the harness monitor.) -/
+theorem abi_same_transfer_full (x : Ftpd) (hv : (validAmount x.amount).isSome)
+    (hlen : ∀ n, GoLen (packWrapped [.dyn x.denom, .dyn x.sender, .dyn x.receiver, .num n, .dyn x.memo])) :
     ∃ bz y, encodeFtpd x = .ok bz ∧ decodeFtpd bz = .ok y ∧ SameTransfer x y := by
-  have hn : n < 2 ^ 256 := by
-    unfold newIntFromString at hv
+  obtain ⟨n, hn⟩ : ∃ n, newIntFromString x.amount = some (false, n) := by
+    unfold validAmount at hv
     split at hv
-    · split at hv
-      · rename_i neg m _ hlt; cases hv; exact hlt
-      · cases hv
+    · rename_i n heq; exact ⟨n, heq⟩
     · cases hv
-  obtain ⟨bz, he, hd⟩ := abi_roundtrip_decimal_reading x false n hp (by intro h; cases h) hn hlen
-  exact ⟨bz, _, he, hd, rfl, rfl, rfl, rfl, by rw [hv]; exact (newIntFromString_dec n hn).symm⟩
+  obtain ⟨bz, he, hd⟩ := abi_roundtrip_any_spelling x n hn (hlen n)
+  have hlt : n < 2 ^ 256 := by
+    unfold newIntFromString at hn
+    split at hn
+    · split at hn
+      · rename_i neg m _ hlt; cases hn; exact hlt
+      · cases hn
+    · cases hn
+  exact ⟨bz, _, he, hd, rfl, rfl, rfl, rfl, by rw [hn]; exact (newIntFromString_dec n hlt).symm⟩
 
 /-! ## Solidity ABI — GMP packet data and acknowledgement -/
 
@@ -211,10 +187,10 @@ example : ∃ bz, encodeFtpd ⟨[117], dec (2 ^ 256 - 1), [97], [98], [123, 125]
   abi_roundtrip [117] [97] [98] [123, 125] (2 ^ 256 - 1) (by decide)
     (by unfold GoLen; rw [packWrapped_length]; simp [encTails, FVal.tail, encDyn_length, ceil32])
 
-/-- the hypotheses of `abi_same_transfer_partial` are satisfiable (amount "+5") and those of the
-    refuted full statement too (amount "010" is valid: it reads as 8) -/
-example : newIntFromString ['+', '5'] = some (false, 5) ∧ parseBig10 ['+', '5'] = some (false, 5) ∧
-    validAmount ['0', '1', '0'] = some 8 := by decide
+/-- the hypothesis of `abi_same_transfer_full` is satisfiable by non-canonical spellings too
+    ("010" is valid and reads as 8, "0x10" as 16, "+5" as 5) -/
+example : validAmount ['0', '1', '0'] = some 8 ∧ validAmount ['0', 'x', '1', '0'] = some 16 ∧
+    validAmount ['+', '5'] = some 5 := by decide
 
 /-- a message of known fields (some empty) round-trips; an unknown field 6 after a known field 1 is rejected -/
 example : Proto.decode 5 (Proto.encode [[1], [], [2, 3], [], []]) = .ok [[1], [], [2, 3], [], []] ∧
